@@ -36,6 +36,7 @@ KNOWN = common.known_for("C18")  # entries live in /verif/known_findings.json
 
 ASSUMPTIONS = [
     "Python floats are modelled as IEEE-754 binary64 with round-to-nearest-even (Model/ConfigFloatModel.v): float(str) is the exact decimal value rounded once, repr(float) the shortest string that reads back (closest among the shortest); the model is compared bit for bit with CPython on every generated string and value (no tolerance)",
+    "the independent rendering of the documented timeout grammar computes with exact rationals; the implementation's value may differ from it by float rounding: relative 1e-9, or absolute 1e-300 s (subnormal range)",
     "argparse, toml, shlex, re are trusted (the text of an annotation / command line / toml file is turned into option values by them); the model receives the option values",
     "str.isspace / digits are modelled for code points <= 255 (ASCII digits only); float literals with more than 4 exponent digits are outside the model (10^exponent is computed exactly)",
     "lru_cache on Config.__getattribute__ and the frozen dataclass are assumed to make layers immutable (exercised by the tie, not modelled)",
@@ -819,7 +820,9 @@ def close(f_hex, frac):
         y = float(frac)
     except OverflowError:
         y = math.inf if frac > 0 else -math.inf
-    return x == y or abs(x - y) <= 1e-9 * max(abs(x), abs(y))
+    # relative 1e-9; absolute 1e-300 for the subnormal range, where one float rounding already has a
+    # large relative error (float("2e-318") * 3600)
+    return x == y or abs(x - y) <= 1e-9 * max(abs(x), abs(y)) or abs(x - y) <= 1e-300
 
 
 # ---- binary64 <-> model encoding [tag; neg; k]: tag 0 finite (magnitude k in units of 2^-1074), 1 inf, 2 nan
